@@ -46,7 +46,7 @@ CONSTANTS Methods,    \* subset of {"cosine", "corr", "rho-a", "cosine_cov", "co
           ThinS,      \* value mode: keep one stack in ThinS (singleton groups; 1 = all)
           ThinG,      \* ... and one in ThinG for non-singleton groupings
           ThinR,      \* value mode: keep one admissible row in ThinR before stacks are formed (1 = all)
-          Xforms,     \* set of <<a, b, c>>, a, c > 0: x |-> (a x + b) / c applied to one data RDM
+          Xforms,     \* set of <<a, b, c, e>>, a, c > 0: x |-> (a x + b) / c * 10^e applied to one data RDM
           ByFilter,   \* proto mode: allowed <<rdm descriptor, pattern descriptor>> pairs ({} = all)
           CvCat,      \* value mode, cross-validation: catalogue of fold structures (Case records)
           MaxCalls,   \* value / trace mode: number of ceilings computed one after the other on ONE data object
@@ -200,11 +200,12 @@ Adversary == /\ pc = "done" /\ Mode = "value" /\ calls = <<>> /\ Singleton /\ me
              /\ UNCHANGED <<objs, hist, fc, folds, stage, src, splits, api, meth, val, g, pred, upper, res, xf, calls>>
 \* clause e: positive rescaling (cosine type) / positive affine maps (correlation type), one per data RDM
 XfFor(m) == IF m \in CosType THEN {t \in Xforms : t[2] = 0} ELSE Xforms
-Transform == /\ pc = "done" /\ Mode = "value" /\ calls = <<>> /\ api = "boot" /\ meth \in CosType \cup CorrType
-             /\ xf' \in {t \in [1..NR -> XfFor(meth)] : \E r \in 1..NR : t[r] # <<1, 0, 1>>}
+Transform == /\ pc = "done" /\ Mode = "value" /\ calls = <<>> /\ meth \in CosType \cup CorrType
+             /\ xf' \in {t \in [1..NR -> XfFor(meth)] : \E r \in 1..NR : t[r] # <<1, 0, 1, 0>>}
              /\ pc' = "xf"
              /\ UNCHANGED <<objs, hist, fc, folds, stage, src, splits, api, meth, val, g, pred, upper, res, cand, calls>>
-\* numerator of the transformed row (the common positive divisor c does not change a normalised row)
+\* a transformation is <<a, b, c, e>>: x |-> (a x + b) / c * 10^e (e down to -26: dissimilarities in SI units of MEG).
+\* numerator of the transformed row (the common positive factor 10^e / c does not change a normalised row)
 XfRow(x, t) == [k \in 1..Len(x) |-> IF x[k] = NaN THEN NaN ELSE t[1] * x[k] + t[2]]
 
 (* ---------------- initial states ------------------------------------------ *)
@@ -356,7 +357,8 @@ EmitNC ==
                        loo |-> [f \in DOMAIN folds |-> FoldStat(f)]]))
   /\ pc = "adv" => PrintT(ToJson([t |-> "cand", api |-> api, case |-> IF api = "cv" THEN fc ELSE <<>>, by |-> fc.byR,
                                   meth |-> meth, val |-> val, c |-> cand]))
-  /\ pc = "xf" => PrintT(ToJson([t |-> "xf", by |-> fc.byR, meth |-> meth, val |-> val, xf |-> xf]))
+  /\ pc = "xf" => PrintT(ToJson([t |-> "xf", api |-> api, case |-> IF api = "cv" THEN fc ELSE <<>>, by |-> fc.byR,
+                                meth |-> meth, val |-> val, xf |-> xf]))
   /\ (pc = "done" /\ Mode = "proto") =>
         PrintT(ToJson([t |-> "proto", api |-> api, case |-> fc,
                        folds |-> [f \in DOMAIN folds |->
